@@ -40,7 +40,7 @@ def _spec_functions(h):
     """E, CONS (with idempotence), FIX, EVALD as spec functions + the effectful versions handed to the code"""
     e_pure = h.fn('E', ret='xreal')
     cons_pure = h.fn('CONS', ret='same')
-    gh = h.obj(None, evals=0, cb_calls=0, records=0)
+    gh = h.obj(None, evals=0, cb_calls=0, records=0, saved_at=-1, saves=0)
 
     def arr_of(I, v):
         ln, arr, ek = Mo.to_slist(I, v)
@@ -123,6 +123,12 @@ def _summaries(sp, with_callback):
     def nothing(I, c, args, kwargs):
         return None
 
+    def save_probe(I, c, args, kwargs):
+        cell = I.st.heap[sp['GH']]
+        cell['saved_at'] = cell['records']
+        cell['saves'] = I.binop(__import__('ast').Add(), cell['saves'], 1)
+        return None
+
     def and_(I, c, args, kwargs):
         return sp['CONS']           # contracts/combinators.py: success => common fixed point; the result is again
         #                             a deterministic idempotent map (hypothesis "compatible with the strict ranges")
@@ -146,7 +152,7 @@ def _summaries(sp, with_callback):
         (DE, 'DifferentialEvolutionSolver._process_inputs'): process_inputs,
         (DE, 'DifferentialEvolutionSolver2._process_inputs'): process_inputs,
         (AS, 'AbstractSolver._bootstrap_objective'): bootstrap,
-        (AS, 'AbstractSolver.__save_state'): nothing,
+        (AS, 'AbstractSolver.__save_state'): save_probe,
         (DE, 'DifferentialEvolutionSolver.UpdateGenealogyRecords'): nothing,
         (DE, 'DifferentialEvolutionSolver2.UpdateGenealogyRecords'): nothing,
         ('mystic/constraints.py', 'and_'): and_,
@@ -234,6 +240,8 @@ def _de1(h, gen0, reentered=False):
     h.check('C04/one-step-monitor-record-of-the-best',
             'GH.records == 1 and seq_eq(GH.rec_x_snapshot, self.bestSolution) and GH.rec_y == self.bestEnergy '
             'and not same(GH.rec_x, self.bestSolution)', **env)
+    # C06 / C04: the periodic restart dump of this iteration holds the iteration complete (requested after its record)
+    h.check('C06/periodic-state-dump-requested-once-after-this-iterations-monitor-record', 'GH.saves == 1 and GH.saved_at == 1', **env)
     if cb:
         h.check('C04/callback-once-with-the-best', 'GH.cb_calls == 1 and same(GH.cb_arg, self.bestSolution)', **env)
     # ---- C08: greedy one-to-one selection, strict
@@ -399,6 +407,8 @@ def _de2(h, gen0, reentered=False):
     h.check('C04/one-step-monitor-record-of-the-best',
             'GH.records == 1 and seq_eq(GH.rec_x_snapshot, self.bestSolution) and GH.rec_y == self.bestEnergy '
             'and not same(GH.rec_x, self.bestSolution)', **env)
+    # C06 / C04: the periodic restart dump of this iteration holds the iteration complete (requested after its record)
+    h.check('C06/periodic-state-dump-requested-once-after-this-iterations-monitor-record', 'GH.saves == 1 and GH.saved_at == 1', **env)
     if cb:
         h.check('C04/callback-once-with-the-best', 'GH.cb_calls == 1 and same(GH.cb_arg, self.bestSolution)', **env)
     if not gen0:
